@@ -3,14 +3,14 @@ NOTE_COMMON = ('Trusted: Lean kernel; axioms propext/Classical.choice/Quot.sound
                'L0 models are hand-written and tied to the code by differential runs (bounded by generator quality), not verified.')
 
 CLAIMS_LATER = {
+}
+CLAIMS = {
     'C05': {
         'text': 'Lean theorems over the L0 model of receivePayloadQueue (all op lists, all 2^32 cumulative points, every bitmap size the code can build) '
                 'plus differential correspondence of that model with the Go struct and the ghost-history predicate S1-S4 evaluated on the implementation outputs.',
         'note': NOTE_COMMON,
         'technique': 'Lean 4 proof (invariant + induction over op lists) + model/implementation differential replay',
     },
-}
-CLAIMS = {
     'C16': {
         'text': 'Serial-number algebra proved in Lean on definitions regenerated from util.go on every run (both widths, all values); '
                 'translator validated against the Go functions on boundary and random inputs; component shift-invariance by theorem on the L0 models.',
@@ -20,6 +20,6 @@ CLAIMS = {
 }
 
 _PENDING = 'check not built yet in this round (planned, see DESIGN.md §5/§8); not claimed until its theorems and correspondence run'
-NOT_APPLICABLE = {p: _PENDING for p in ['C05', 'C01', 'C02', 'C03', 'C04', 'C06', 'C07', 'C08', 'C09', 'C10', 'C11', 'C12', 'C13', 'C14', 'C15', 'C17', 'C18', 'C19', 'C20']}
+NOT_APPLICABLE = {p: _PENDING for p in ['C01', 'C02', 'C03', 'C04', 'C06', 'C07', 'C08', 'C09', 'C10', 'C11', 'C12', 'C13', 'C14', 'C15', 'C17', 'C18', 'C19', 'C20']}
 
 NOTES = 'Family of technique: machine-checked proof in Lean 4. See DESIGN.md. Known findings: known_findings.jsonl.'
